@@ -281,6 +281,18 @@ fn content_fixpoint<C: EventContentFromType + Serialize>(ty: &str, content: &Val
         if p.contains("org.example.unknown") || b.contains_key(p) || omitted_default(ty, p, v) {
             continue;
         }
+        // a plain source next to an encrypted one (`url` + `file`, `thumbnail_url` + `thumbnail_file`):
+        // the specification has one or the other, the typed content keeps the encrypted one
+        if let Some(parent) = p.strip_suffix("/thumbnail_url") {
+            if a.keys().any(|k| k.starts_with(&format!("{parent}/thumbnail_file/"))) {
+                continue;
+            }
+        }
+        if let Some(parent) = p.strip_suffix("/url") {
+            if !parent.ends_with("/file") && !parent.ends_with("_file") && a.keys().any(|k| k.starts_with(&format!("{parent}/file/"))) {
+                continue;
+            }
+        }
         // an empty list or object: only the fields the specification marks as required must stay
         if (v.is_array() || v.is_object()) && !required_container(ty, p) {
             continue;
